@@ -97,6 +97,11 @@ theorem deliver_ext {env : Env} {R : Rej} {sy : Sy} (h : Inv R sy) (m : Msg) :
       · exact Or.inr (Or.inl (hf _ h))
       · exact Or.inr (Or.inr (hk _ h))
     rw [this]
+  | stop peer =>
+    obtain ⟨hsub, b1, b2, b3, _⟩ := removePeer_spec sy.pool peer
+    simp only [deliver]
+    exact ⟨⟨hc.of_sub hsub b1 b2 b3, by rw [b1]; exact hk, by rw [b2]; exact hf, by rw [b3]; exact hp⟩, b1, b2,
+      [.peerStopped peer], rfl, by intro e he; simp only [List.mem_singleton] at he; subst he; trivial⟩
 
 theorem deliverAll_ext {env : Env} {R : Rej} (ms : List Msg) : ∀ {sy : Sy}, Inv R sy →
     Ext env R sy (deliverAll recent sy ms) := by
